@@ -16,6 +16,7 @@ import (
 	"servitor/jtp"
 	"servitor/pub"
 	"servitor/verifrt"
+	"verif/lib/enva"
 	"verif/lib/ev"
 	"verif/lib/uidrv"
 	"verif/lib/world"
@@ -386,11 +387,12 @@ func genericEntries(r *ev.Report) {
 }
 
 func main() {
+	envaDir := enva.Reexec()
 	r := ev.New("C04", "exploration",
 		"E1a: full product scheme(6) x userinfo(3) x host(10, one of them refusing connections) x path(14) x query(8) x fragment(3) through url.Parse + jtp.Get: the single connection goes to the URL's host and port over TLS and the bytes written are exactly "+
 			"request line + Host + Accept for the expected wire form of each component; non-https URLs open no connection. E1b-e: 18 hostile references x 4 sources through client.FetchUnknown, as Location / embedded reference / id of served documents through pub.New "+
 			"and every Tangible method, 154 webfinger handles through pub.FetchUserInput, and the UI's :open command typed byte by byte, with a generic oracle on every connection (TLS, four CRLF lines, no control bytes, origin-form target without blanks or fragment, "+
-			"Host matches the dial address, constant Accept); distinct_nontrivial = judged requests with distinct inputs")
+			"Host matches the dial address, constant Accept); Env-A: a complete sub-product (2 schemes x 3 host spellings x 12 paths x 6 queries, with userinfo and fragment) over real TLS on a loopback port with a run-time CA and an in-process DNS responder: TLS first byte, SNI, exact bytes, resolver queries; distinct_nontrivial = judged requests with distinct inputs")
 	install()
 	if *ev.FlagReplay != "" {
 		fmt.Println("the enumeration is deterministic: re-run ./vcheck run c04 quick; the replay file holds the failing input")
@@ -398,10 +400,12 @@ func main() {
 	}
 	urlProduct(r)
 	genericEntries(r)
+	envaPart(r, envaDir)
 	r.Sample(map[string]any{"entry": "jtp.Get", "url": "https://u:p@h1.example:8443/a b?q=%0D%0AX-Inj:1#f"})
 	r.Sample(map[string]any{"entry": "pub.FetchUserInput", "input": "@a b@wf.example:8443"})
 	r.Sample(map[string]any{"entry": "pub.New/redir/", "location": hostileRefs[1]})
 	r.Assumptions = append(r.Assumptions,
+		"Env-A part: real sockets and TLS on 127.0.0.1 (lib/enva); the process re-executes itself once with SSL_CERT_FILE pointing at a CA generated at run time; if the loopback listener cannot be set up the part is skipped and the evidence says so",
 		"Env-B: connections are observed at the verifrt.Dial seam, which records which dial function the source called, the TLS config class, the address and every byte written; no bytes travel over a real socket here",
 		"a connection whose dial host is not an IP literal or a name Go's resolver accepts (letters, digits, '-', '_', '.') is not judged: the real dial fails before any byte is sent",
 		"bytes >= 0x80 in a request target (unescaped non-ASCII in a query) are recorded, not judged")
